@@ -2364,6 +2364,9 @@ func (p *Parser) gotStmtPipe(s *Stmt, binCmd bool) *Stmt {
 		p.arithmExpCmd(s)
 	}
 	if s.Cmd == nil && len(s.Redirs) == 0 {
+		// Leave the comments for whatever follows, such as in "time # foo"
+		// or "coproc foo # bar"; otherwise they would be lost.
+		p.accComs = append(s.Comments, p.accComs...)
 		return nil // no statement found
 	}
 	if redirsStart > 0 && s.Cmd != nil {
